@@ -36,6 +36,8 @@ unit("C07", "parallel.params")(C05.parallel_params)
 # the copy each task works on (Processor.replace -> Processor.__deepcopy__ -> ModelGroup / ModelFunction / Arguments copies)
 # shares no mutable object with the template processor that all concurrently running tasks read: same obligations as C06
 unit("C07", "task.copy")(C06.deepcopy_unit)
+from pyvc import verify as _verify  # noqa: E402
+unit("C07", "task.replace")(dict(_verify.UNITS["C06"])["replace"])      # Processor.replace: ALWAYS a separate, structurally equal copy with the values applied
 
 
 def _roots_written(fn_node, names):
